@@ -148,6 +148,9 @@ func (fs faultsim) runFaulted(c *Case, dir string, target int, plan *sim.FaultPl
 			} else {
 				e.RunStep(i, st)
 			}
+			if e.LastCommitOK {
+				e.AllowInvalidMeta = false // the torn slot, if any, has been rewritten by this commit
+			}
 			if e.Failed() {
 				break
 			}
@@ -237,6 +240,7 @@ func (fs faultsim) runFaulted(c *Case, dir string, target int, plan *sim.FaultPl
 				fail("reopen-after-fault", "Open after %s: %v", disk.Fired, oerr)
 				break
 			}
+			e.AllowInvalidMeta = true
 			e.CheckContent("reopen after " + disk.Fired)
 			e.CheckFile("reopen after " + disk.Fired)
 			continue
@@ -268,6 +272,7 @@ func (fs faultsim) runFaulted(c *Case, dir string, target int, plan *sim.FaultPl
 		for _, id := range sortedReaderIDs(e) {
 			e.CheckReader(id)
 		}
+		e.AllowInvalidMeta = true
 		e.CheckFile("failed commit (" + disk.Fired + ")")
 		// re-attribute accounting problems found right after the failure
 		for _, v := range e.Viol {
